@@ -14,7 +14,7 @@ from ..monitors import thread_probe, in_process_pools
 from ..harness import watchdog, WatchdogTimeout, digest
 
 MANIFEST = {
-    'text': 'Held on every call executed: seeded signals (60-400 samples) x option sets x caps 1..K+2 drive all six sift variants; every sift/mask_sift column is re-extracted with the public single-IMF stage from the residual of the previous columns (bit-equality expected), capped runs are compared with prefixes of the uncapped run (array_equal), and every variant\'s return value is checked for rank, row count, component count <= cap and finiteness; second-layer outputs are compared with per-column sifts. Sampling, not proof.',
+    'text': 'Held on every call executed: seeded signals (60-400 samples) x option sets x caps 1..K+2 drive all six sift variants; every sift/mask_sift column is re-extracted with the public single-IMF stage from the residual of the previous columns (bit-equality expected), capped runs are compared with prefixes of the uncapped run (array_equal), and every variant\'s return value is checked for rank, row count, component count <= cap and finiteness; second-layer outputs are compared with per-column sifts. Sampling, not proof. Schedules: the same deterministic calls made from 4-5 threads of one interpreter at once (thread switch every 1-10 microseconds) must reproduce the results obtained alone. A quarter of the shards run in a session that turns Deprecation/Future/UserWarnings into errors.',
     'note': 'Trusted: numpy/scipy; the single-IMF stage functions themselves (their correctness is C04/C07). Ensemble variants are run with nprocesses 1-2 and numpy\'s global RNG seeded per case.',
     'technique': 'runtime post-condition monitors + differential oracle between capped/uncapped runs and stage-wise re-extraction on the real functions',
 }
